@@ -19,13 +19,10 @@ func init() {
 	})
 }
 
-// keyParams holds the parameters of back-end helper functions that receive key-derived values
-// (filled by a fixpoint over the call sites of package db/fs in runC11).
-var keyParams = map[*ssa.Parameter]bool{}
-
 // derivesFromLookupKey: v derives from a db.LookupKey field (Default/Translation), directly or
-// through a helper parameter that is given such a value.
-func derivesFromLookupKey(v ssa.Value) bool {
+// through a helper parameter that is given such a value (keyParams: the parameters of back-end
+// helper functions that receive key-derived values, computed per run by a fixpoint in runC11).
+func derivesFromLookupKey(v ssa.Value, keyParams map[*ssa.Parameter]bool) bool {
 	roots, _ := core.DeepSources(v, func(c *ssa.Call) []int {
 		n := core.CallName(c)
 		if strings.Contains(n, "EncodeToString") || n == "path.Join" || n == "path/filepath.Join" {
@@ -75,7 +72,7 @@ func runC11(w *core.World, r *core.Report) {
 					if c, isC := core.ConstInt(sl.Low); isC && c == 0 {
 						continue
 					}
-					if !derivesFromLookupKey(sl.X) {
+					if !derivesFromLookupKey(sl.X, nil) {
 						continue
 					}
 					n1++
@@ -140,7 +137,7 @@ func runC11(w *core.World, r *core.Report) {
 		return false
 	}
 	// which helper parameters receive key-derived values (fixpoint)
-	keyParams = map[*ssa.Parameter]bool{}
+	keyParams := map[*ssa.Parameter]bool{}
 	for changed := true; changed; {
 		changed = false
 		for _, fn := range w.FuncsIn("db/fs") {
@@ -150,7 +147,7 @@ func runC11(w *core.World, r *core.Report) {
 					continue
 				}
 				for i, a := range core.CallArgs(c) {
-					if i < len(g.Params) && !keyParams[g.Params[i]] && core.ByteLike(g.Params[i].Type()) && derivesFromLookupKey(a) {
+					if i < len(g.Params) && !keyParams[g.Params[i]] && core.ByteLike(g.Params[i].Type()) && derivesFromLookupKey(a, keyParams) {
 						keyParams[g.Params[i]] = true
 						changed = true
 					}
@@ -167,7 +164,7 @@ func runC11(w *core.World, r *core.Report) {
 			args := core.CallArgs(c)
 			uses := false
 			for _, a := range args {
-				if derivesFromLookupKey(a) {
+				if derivesFromLookupKey(a, keyParams) {
 					uses = true
 				}
 			}
